@@ -20,6 +20,8 @@ static int g_errnull;      /* scenario variant: every optional carquet_error_t* 
 #define EP(e) (g_errnull ? NULL : (e))
 static uint8_t* g_file; static size_t g_file_n;      /* input file of the read scenarios */
 static hist_t g_hist;
+/* rows of the fault-free run, per row group and column: what a call that reports success must deliver at the cursor */
+static uint64_t g_rowdig[10][4][128]; static int g_rowcnt[10][4]; static int g_record, g_rows_valid;
 
 static void table_hist(int codec, hist_t* h) {
     memset(h, 0, sizeof *h); h->ncols = 3; h->cols[0] = TBL_KINDS[1]; h->cols[1] = TBL_KINDS[5]; h->cols[2] = TBL_KINDS[10]; h->cols[0].name = "a"; h->cols[1].name = "b"; h->cols[2].name = "c";
@@ -65,6 +67,7 @@ static void scn_read(int mode, int ncols, const int* ptypes, const int* tlens, o
     for (int g = 0; g < nrg; g++) for (int c = 0; c < ncols; c++) {
         carquet_column_reader_t* cr = carquet_reader_get_column(rd, g, c, EP(&err)); if (!cr) { ERR(o, "get_column"); continue; }
         int w = ref_type_width(ptypes[c], tlens[c]); size_t vs = ptypes[c] == PT_BYTE_ARRAY ? sizeof(carquet_byte_array_t) : (size_t)w;
+        int64_t pos = 0; if (g_record && g < 10 && c < 4) g_rowcnt[g][c] = 0;
         for (int guard = 0; guard < 100; guard++) {
             int64_t K = g_bigread ? 64 : 2; uint8_t* vb = mc_exact(NULL, vs * (size_t)K); int16_t* db = mc_exact(NULL, 2 * (size_t)K); memset(vb, 0, vs * (size_t)K); memset(db, 0, 2 * (size_t)K);
             int64_t n = carquet_column_read_batch(cr, vb, K, db, NULL);
@@ -72,6 +75,16 @@ static void scn_read(int mode, int ncols, const int* ptypes, const int* tlens, o
             if (n < 0) { ERR(o, "read_batch"); free(vb); free(db); break; }
             if (n == 0) { free(vb); free(db); break; }
             int64_t nn = 0; for (int64_t i = 0; i < n; i++) { h = mc_mix(h, (uint64_t)db[i]); nn++; }
+            if (g < 10 && c < 4) {     /* row by row against the fault-free run: a short count is tolerated, a different row is not */
+                int64_t k = 0; bool isopt = ptypes[c] == PT_BYTE_ARRAY ? true : g_hist.cols[c].opt != 0;
+                for (int64_t i = 0; i < n; i++) { uint64_t d = mc_mix(29, (uint64_t)db[i]);
+                    if (db[i] > 0 || !isopt) { if (ptypes[c] == PT_BYTE_ARRAY) { carquet_byte_array_t* ba = (carquet_byte_array_t*)vb; d = mc_mix(d, (uint64_t)ba[k].length); if (ba[k].length > 0 && ba[k].length < 4096 && ba[k].data) d = mc_mix(d, mc_hash(ba[k].data, (size_t)ba[k].length, 9)); } else d = mc_mix(d, mc_hash(vb + k * w, (size_t)w, 11)); k++; }
+                    int64_t at = pos + i;
+                    if (!g_record && !g_rows_valid) continue;
+                    if (g_record) { g_rows_valid = 1; if (at < 128) { g_rowdig[g][c][at] = d; g_rowcnt[g][c] = (int)at + 1; } }
+                    else if (at >= g_rowcnt[g][c] && g_rowcnt[g][c] < 128) { mc_fail("success-with-rows-beyond-the-chunk", "rg %d column %d: a call that reported success delivered row %lld, the chunk has %d", g, c, (long long)at, g_rowcnt[g][c]); break; }
+                    else if (at < 128 && g_rowdig[g][c][at] != d) { mc_fail("success-with-different-rows", "rg %d column %d: a call that reported success delivered at row %lld something else than the fault-free run (call returned %lld rows from row %lld)", g, c, (long long)at, (long long)n, (long long)pos); break; } }
+                pos += n; }
             /* values are dense: only as many as there are non-null rows; the file's own levels tell how many */
             (void)nn; if (ptypes[c] == PT_BYTE_ARRAY) { carquet_byte_array_t* ba = (carquet_byte_array_t*)vb; int64_t k = 0; for (int64_t i = 0; i < n; i++) if (db[i] > 0 || !1) { if (ba[k].length >= 0 && ba[k].length < 4096 && (ba[k].length == 0 || ba[k].data)) { hv = mc_mix(hv, (uint64_t)ba[k].length); if (ba[k].length) hv = mc_mix(hv, mc_hash(ba[k].data, (size_t)ba[k].length, 9)); } k++; } }
             else { int64_t k = 0; for (int64_t i = 0; i < n; i++) if (db[i] > 0 || g_hist.cols[c].opt == 0) { hv = mc_mix(hv, mc_hash(vb + k * w, (size_t)w, 11)); k++; } }
@@ -115,6 +128,7 @@ static void run_scenario(const scn_t* s, obs_t* o) {
     mcf_off();
 }
 static void prepare_input(const scn_t* s) {
+    g_rows_valid = 0;
     free(g_file); g_file = NULL;
     if (s->kind == K_READ || s->kind == K_BATCH) { table_hist(s->b, &g_hist); carquet_status_t st; const char* where; if (tbl_write(&g_hist, &g_file, &g_file_n, &st, &where)) mc_harness_error("cannot write input file"); }
     else if (s->kind == K_DICTREAD || s->kind == K_DICTBATCH || s->kind == K_PLAINBA) { rfile_t f; memset(&f, 0, sizeof f); f.ncols = 2; f.N = 7; f.nrg = 2; f.codec = s->b; f.crc = true; f.dict_offset_present = true; f.col[0].ptype = PT_BYTE_ARRAY; f.col[0].opt = 1; f.mask[0] = 0x24; f.enc[0] = ENC_RLE_DICT; f.npages[0] = 2; f.page_levels[0][0] = 3; f.page_levels[0][1] = 4; f.col[1].ptype = PT_INT64; f.enc[1] = ENC_PLAIN_DICT;
@@ -160,7 +174,7 @@ static void enumerate(void) {
     mc_stage("single-fault.every-request");
     for (int si = 0; si < ns; si++) {
         prepare_input(&S[si]);
-        obs_t base, again; mcf_reset(); run_scenario(&S[si], &base); long K = mcf_requests(); run_scenario(&S[si], &again); long base_live = mcf_live();
+        obs_t base, again; mcf_reset(); g_record = 1; run_scenario(&S[si], &base); g_record = 0; long K = mcf_requests(); run_scenario(&S[si], &again); long base_live = mcf_live();
         if (base.err_seen || again.hash != base.hash) mc_harness_error("scenario %s is not deterministic or fails without faults (%s)", S[si].name, base.first_err);
         mc_count("scenarios", 1); mc_count("allocation-requests.fault-free", (uint64_t)K);
         long Kone = K;         /* K = requests of ONE fault-free run (read before the determinism re-run) */
@@ -172,7 +186,7 @@ static void enumerate(void) {
     }
     mc_stage("double-fault.all-pairs");
     for (int si = 0; si < ns; si++) {
-        prepare_input(&S[si]); obs_t base, again; mcf_reset(); run_scenario(&S[si], &base); long K = mcf_requests(); run_scenario(&S[si], &again); long base_live = mcf_live(); (void)again;
+        prepare_input(&S[si]); obs_t base, again; mcf_reset(); g_record = 1; run_scenario(&S[si], &base); g_record = 0; long K = mcf_requests(); run_scenario(&S[si], &again); long base_live = mcf_live(); (void)again;
         if (K > 400) { mc_count("double-fault.scenarios-skipped-as-too-large", 1); continue; }
         for (long k1 = 1; k1 <= K; k1++) for (long k2 = k1 + 1; k2 <= K; k2++) {
             if (!mc_next()) continue;
